@@ -230,3 +230,37 @@ Definition vec_remove {A} (l : list A) (i : N) : outcome (A * list A) :=
 (** [s.split_at(mid)]: panics when [mid > len] *)
 Definition split_at_n {A} (l : list A) (mid : N) : outcome (list A * list A) :=
   if mid <=? llen l then Ok (firstn (N.to_nat mid) l, skipn (N.to_nat mid) l) else Panic.
+
+(** ** [ethereum_serde_utils::hex::{encode, PrefixedHexVisitor}] (third-party; behaviour assumed, tied by the C18
+    correspondence).  Strings are lists of character codes. *)
+Definition str := list N.
+
+Definition hex_digit (d : N) : N := if d <? 10 then 48 + d else 87 + d.     (* '0'..'9', 'a'..'f' *)
+Definition hex_of_bytes (bs : bytes) : str :=
+  concat (map (fun b => [hex_digit (b / 16); hex_digit (b mod 16)]) bs).
+(** [hex::encode]: "0x" followed by lowercase hex *)
+Definition hex_encode (bs : bytes) : str := 48 :: 120 :: hex_of_bytes bs.
+
+Definition digit_val (c : N) : option N :=
+  if (48 <=? c) && (c <=? 57) then Some (c - 48)
+  else if (97 <=? c) && (c <=? 102) then Some (c - 87)
+  else if (65 <=? c) && (c <=? 70) then Some (c - 55)
+  else None.
+(** even-length strings over [0-9a-fA-F] *)
+Fixpoint bytes_of_hex (s : str) : option bytes :=
+  match s with
+  | [] => Some []
+  | [_] => None
+  | a :: b :: r =>
+      match digit_val a, digit_val b, bytes_of_hex r with
+      | Some x, Some y, Some bs => Some (16 * x + y :: bs)
+      | _, _, _ => None
+      end
+  end.
+(** [PrefixedHexVisitor]: the string must start with "0x" *)
+Definition prefixed_hex_decode (s : str) : option bytes :=
+  match s with
+  | 48 :: 120 :: r => bytes_of_hex r
+  | _ => None
+  end.
+
